@@ -422,7 +422,11 @@ pub fn flex_layout(
                 (space, space)
             }
             Justify::SpaceAround => {
-                let space = unused / children.len();
+                let space = if children.is_empty() {
+                    0
+                } else {
+                    unused / children.len()
+                };
                 (space / 2, space)
             }
         }
